@@ -204,10 +204,14 @@ func (in Indenter) Write(b []byte) (int, error) {
 	n, j := 0, 0
 	for i, c := range b {
 		if c == '\n' {
-			m, _ := in.Writer.Write(b[j : i+1])
+			m, err := in.Writer.Write(b[j : i+1])
 			n += m
-			m, _ = in.Writer.Write(in.b)
-			n += m
+			if err != nil {
+				return n, err
+			}
+			if _, err = in.Writer.Write(in.b); err != nil {
+				return n, err
+			}
 			j = i + 1
 		}
 	}
